@@ -19,7 +19,7 @@ pub trait Dq<P: ?Sized> { type G: ?Sized; }
 pub trait Dl<'a, 'b> { type G: ?Sized; }
 pub trait Dc<const N: usize> { type G: ?Sized; }
 pub trait Tr0 {}
-pub enum GA {} pub enum GB {} pub enum GC {}
+pub enum GA {} pub enum GB {} pub enum GC {} pub enum GD {}
 pub struct X0; pub struct X1; pub struct X2; pub struct X3;
 pub struct W<T, const N: usize>(core::marker::PhantomData<T>);
 macro_rules! impls {
